@@ -4,7 +4,7 @@ from .. import core, gen, spec, geo
 from .C01 import tables_are_reference
 
 LEVEL = "proof"
-F11_KEY = "C02:roundtrip-miss:lookup-fallback-in-reference-model-too"
+# (the high-latitude finding F11 was repaired by fix 24ee3fd: every miss is a violation)
 
 
 def vec(lon, lat):
@@ -26,7 +26,7 @@ def run(run):
     creq = [f"cell_to_lonlat {c}" for c in cells]
     cimpl, cmodel = core.both(run, creq, "cell_to_lonlat")
     # boundaries (corners only) for a sample, to build interior points
-    sample = set(rng.sample(range(len(cells)), min(len(cells), 400 if quick else 20000)))
+    sample = set(rng.sample(range(len(cells)), min(len(cells), run.n(400, 20000))))
     breq = [f"cell_to_boundary {cells[i]} 0 1" for i in sorted(sample)]
     bimpl = core.impl_only(run, breq)
     corners = {i: geo.parse_ring(b) for i, b in zip(sorted(sample), bimpl)}
@@ -69,8 +69,6 @@ def run(run):
             # a point 1e-4 from a vertex may legitimately belong to the neighbour when the straight lon/lat segment leaves the (curved) cell: check containment instead
             continue
         v = {"what": f"the {kind} point of cell {c:#x} (t={tt}) maps to {a} instead of the cell", "request": [f"cell_to_lonlat {c}", q], "impl": a, "model": m}
-        if br == "-1" and m.split()[:3] == t[:3] and ref_tables:
-            v["match_key"] = F11_KEY
         run.violations.append(v)
     run.rule = ("cell -> reported centre -> lookup at the cell's own resolution, for every cell of resolution 0..%d and, for r up to 29, every face x quintant x patterned/random curve positions; "
                 "plus interior points centre + t (corner - centre), t in {0.5, 0.9}; (t = 1-1e-4 points are exercised for correspondence only); "
